@@ -153,3 +153,128 @@ func ruleEndsFollowRemoval(w *World, r *Report) {
 	}
 	r.Expect("methods that unlink one child", n, 1)
 }
+
+// ---- C13-G: a mutator detaches only its own children and the node it adopts ------------------------------------
+
+// detachesFromAnyParent: the index of a parameter p of h that h removes from p.Parent() (ensureIsolated), or -1.
+func detachesFromAnyParent(h *ssa.Function) int {
+	if h == nil || h.Blocks == nil {
+		return -1
+	}
+	for pi, p := range h.Params {
+		for _, b := range h.Blocks {
+			for _, ins := range b.Instrs {
+				c, ok := ins.(*ssa.Call)
+				if !ok || !c.Common().IsInvoke() || c.Common().Method.Name() != "RemoveChild" || len(c.Common().Args) != 2 {
+					continue
+				}
+				if stripNodeConv(c.Common().Args[1]) != ssa.Value(p) {
+					continue
+				}
+				fromParent := false
+				for _, leaf := range phiLeaves(c.Common().Value) {
+					if pc, ok := leaf.(*ssa.Call); ok && pc.Common().IsInvoke() && pc.Common().Method.Name() == "Parent" && pc.Common().Value == ssa.Value(p) {
+						fromParent = true
+					}
+				}
+				if fromParent {
+					return pi
+				}
+			}
+		}
+	}
+	return -1
+}
+
+func ruleMutatorsDetachOnlyTheirOwn(w *World, r *Report) {
+	r.Rule("C13-G", "In the mutators of package ast (methods with a self parameter that link nodes), a node is taken out of whatever parent it has (a helper that calls v.Parent().RemoveChild(…, v), such as ensureIsolated) only if it is the node the mutator adopts — the parameter that receives SetParent(self). Reference nodes (the child to replace, the sibling to insert next to) are detached only through RemoveChild(self, v), which does nothing unless v is a child of the receiver. ReplaceChild(self, foreign, x) otherwise rips `foreign` out of an uninvolved tree.")
+	// adopted parameter positions per mutator: SetParent(non-nil) is invoked on the parameter, or it is handed to another
+	// mutator at a position that one adopts (ReplaceChild and InsertAfter delegate to InsertBefore)
+	var muts []*ssa.Function
+	for _, fn := range w.Funcs {
+		if w.PkgOf(fn) == modPath+"/ast" && fn.Signature.Recv() != nil && len(fn.Params) >= 3 && fn.Synthetic == "" {
+			muts = append(muts, fn)
+		}
+	}
+	adoptedIdx := map[*ssa.Function]map[int]bool{}
+	for _, fn := range muts {
+		adoptedIdx[fn] = map[int]bool{}
+		for _, b := range fn.Blocks {
+			for _, ins := range b.Instrs {
+				if c, ok := ins.(*ssa.Call); ok && c.Common().IsInvoke() && c.Common().Method.Name() == "SetParent" && len(c.Common().Args) == 1 && !isNilConst(c.Common().Args[0]) {
+					if p, ok := stripNodeConv(c.Common().Value).(*ssa.Parameter); ok {
+						adoptedIdx[fn][paramIndex(fn, p)] = true
+					}
+				}
+			}
+		}
+	}
+	for changed := true; changed; {
+		changed = false
+		for _, fn := range muts {
+			for _, b := range fn.Blocks {
+				for _, ins := range b.Instrs {
+					c, ok := ins.(*ssa.Call)
+					if !ok {
+						continue
+					}
+					cal := c.Common().StaticCallee()
+					if cal == nil || adoptedIdx[cal] == nil {
+						continue
+					}
+					for k := range adoptedIdx[cal] {
+						if k < len(c.Common().Args) {
+							if p, ok := stripNodeConv(c.Common().Args[k]).(*ssa.Parameter); ok && !adoptedIdx[fn][paramIndex(fn, p)] {
+								adoptedIdx[fn][paramIndex(fn, p)] = true
+								changed = true
+							}
+						}
+					}
+				}
+			}
+		}
+	}
+	n := 0
+	for _, fn := range muts {
+		adopted := map[ssa.Value]bool{}
+		for k := range adoptedIdx[fn] {
+			if k >= 0 && k < len(fn.Params) {
+				adopted[fn.Params[k]] = true
+			}
+		}
+		if len(adopted) == 0 {
+			continue
+		}
+		n++
+		key := w.FnKey(fn) + ": detaches only its own children and the adopted node"
+		bad := ""
+		nCalls := 0
+		for _, b := range fn.Blocks {
+			for _, ins := range b.Instrs {
+				c, ok := ins.(*ssa.Call)
+				if !ok {
+					continue
+				}
+				cal := c.Common().StaticCallee()
+				if cal == nil || !w.InModule(cal) {
+					continue
+				}
+				pi := detachesFromAnyParent(cal)
+				if pi < 0 || pi >= len(c.Common().Args) {
+					continue
+				}
+				nCalls++
+				arg := stripNodeConv(c.Common().Args[pi])
+				if !adopted[arg] {
+					bad = fmt.Sprintf("%s at %s takes %s out of whatever parent it has, but this mutator does not adopt that node", cal.Name(), w.InstrPos(c), shortVal(arg))
+				}
+			}
+		}
+		if bad != "" {
+			r.Bad(key, w.FnPos(fn), bad+": a reference node that belongs to another parent is removed from that parent")
+		} else {
+			r.OK(key, w.FnPos(fn), fmt.Sprintf("%d detach-from-anywhere call(s), each on the adopted node", nCalls))
+		}
+	}
+	r.Expect("mutators that adopt a node", n, 2)
+}
